@@ -187,6 +187,18 @@ fn child_main(owner_pid: i32, script: &[Op]) {
                     remote::observe("svc_dropped");
                 }
             }
+            "recreate" => {
+                if let Some(n) = &node {
+                    let name: ServiceName = format!("vsim/proc/ps{}", o.arg(0)).as_str().try_into().unwrap();
+                    match n.service_builder(&name).publish_subscribe::<Pay>().max_publishers(2).max_subscribers(5).max_nodes(7).history_size(1).create() {
+                        Ok(s) => {
+                            remote::observe("recreate_ok");
+                            drop(s);
+                        }
+                        Err(e) => remote::observe(&format!("recreate_error {e:?}")),
+                    }
+                }
+            }
             "hold" => remote::sleep_ns(o.arg(0) as u64 * 1_000_000),
             "dropall" => {
                 publisher = None;
@@ -543,6 +555,21 @@ impl ProcHarness {
         if plan.p("roundtrip") != 0 && sent_ok && !recv_ok {
             return (vk("service-unusable", "after the crash and cleanup a survivor's fresh subscriber received nothing from a survivor's publisher".into()), probes);
         }
+        if cleanup_seen_ok {
+            // only meaningful when that survivor had really dropped everything before (the minimiser may drop ops)
+            let dropped_before = |c: usize, at: usize| {
+                let last_drop = run.obs.iter().filter(|(cc, t, e)| *cc == c && *e <= at && t == "dropped").map(|o| o.2).max();
+                let last_open = run.obs.iter().filter(|(cc, t, e)| *cc == c && *e <= at && (t == "service_ok" || t.starts_with("port_ok"))).map(|o| o.2).max();
+                matches!((last_drop, last_open), (Some(d), Some(o)) if d >= o) || (last_drop.is_some() && last_open.is_none())
+            };
+            let others_gone = |at: usize| (0..run.yields_per_child.len()).all(|c| c == victim || dropped_before(c, at) || !run.obs.iter().any(|(cc, t, _)| *cc == c && t == "service_ok"));
+            if let Some((c, t, _)) = run.obs.iter().find(|(c, t, e)| *c != victim && *e > kill_ev && t.starts_with("recreate_error") && dropped_before(*c, *e) && others_gone(*e)) {
+                return (vk("service-outlives-last-user", format!("after cleanup of the killed process and after survivor {c} dropped everything the service name cannot be created afresh: {t}")), probes);
+            }
+            if run.obs.iter().any(|(c, t, e)| *c != victim && *e > kill_ev && t.starts_with("recreate_ok")) {
+                probes.push(("name_recreated_after_last_user_left", 1));
+            }
+        }
         // leftovers: files that only the victim created and nobody else touched must be gone after cleanup
         if cleanup_seen_ok || vid.is_none() {
             let mut created_by_victim: Vec<String> = Vec::new();
@@ -699,6 +726,11 @@ impl Harness for ProcHarness {
             s.push(("subscriber", 0));
             s.push(("send", 0));
             s.push(("recv", 0));
+            // ... and once its last user has left, the service is gone: the name can be created afresh with
+            // different settings (a dead node that stayed registered would keep it alive for ever)
+            s.push(("dropall", 0));
+            s.push(("node", 0));
+            s.push(("recreate", 1));
             threads.push(ops(&s));
             params.insert("victim".into(), 0);
             params.insert("kill".into(), 1);
